@@ -829,6 +829,9 @@ def j_c18(case, resps):
     # precision, so only reflexivity is demanded there (as the property does for large coordinates).
     if len(vals) > 4 and vals[4] != 1.0:
         out.append(V("C18", grp, "isApprox", "double-cover", case["tags"], case["reqs"][4], "q and -q (same transformation) are not approximately equal", 1, 0))
+    for i in (5, 6):
+        if len(vals) > i and vals[i] != 1.0:
+            out.append(V("C18", grp, "==", "double-cover", case["tags"], case["reqs"][i], "X == X' is false for the two coefficient vectors (q, -q) of one transformation", 1, 0))
     if lin_scale(grp, X, Y) * 1e-14 > eps:
         return out
     if xy != yx:
@@ -1438,6 +1441,8 @@ def cases_algo(prop, r, group, n, exe):
                     gen.req(dbg, "o", group, "isApprox", 0, X + X + [eps]), gen.req(dbg, "o", group, "isApprox", 0, X + X)]
             if Xn:
                 reqs.append(gen.req(dbg, "o", group, "isApprox", 0, X + Xn + [eps]))
+                reqs.append(gen.req(dbg, "o", group, "isApprox", 0, X + Xn))        # operator== on the two coefficient vectors of one transformation
+                reqs.append(gen.req(dbg, "o", group, "isApprox", 0, Xn + X))
             cs.append(dict(prop=prop, group=group, kind="c18", reqs=reqs, X=X, Y=Y, eps=eps,
                            tags=["eps:%g" % eps, "dist:%g" % scale] + tags))
             a, ta = gen.tangent(r, group, angle_only=["zero", "small", "low", "generic"], lin_only=["zero", "tiny", "unit", "large", "huge"])
@@ -1460,6 +1465,14 @@ def cases_algo(prop, r, group, n, exe):
             k = r.choice([1, 2, 3])
             cl = r.choice([0, 1])
             X, pts, tags = l1.make_points(exe, r, group, N, 0.6, dbg, lin_only=("zero", "unit"))
+            dup = r.random() < 0.35
+            if dup:            # a trajectory that returns to its start (the usual way to describe a closed curve), or a repeated point
+                if r.random() < 0.7:
+                    pts[-1] = list(pts[0])
+                else:
+                    j = r.randrange(1, N)
+                    pts[j] = list(pts[j - 1])
+                tags = tags + ["dup"]
             cs.append(dict(prop=prop, group=group, kind="c17g", N=N, d=d, k=k, closed=bool(cl), pts=pts,
                            tags=["N%d" % N, "d%d" % d, "k%d" % k, "cl%d" % cl] + tags,
                            reqs=[gen.req(dbg, "o", group, "decasteljau", 0, [c for p in pts for c in p], [d, k, cl])]))
